@@ -151,20 +151,20 @@ package callbacks
 //@   assert schema-modifiers-applied: old(db.Statement.Schema) == nil || clausesApplied == 1 [C08]
 
 //@ # ---------- C10: what an UPDATE may write ----------
-//@ # The two site sweeps over ConvertToAssignments below are written from the property, and 6 of their 9
-//@ # instances discharge; 3 time out (the function's VC has > 5000 assertions after ~40 havocs). They are
-//@ # tagged C10-undischarged and are NOT part of the C10 claim (DESIGN.md 4/C10).
+//@ # The two site sweeps over ConvertToAssignments below are written from the property. They rest on: the
+//@ # ownership analysis (the map returned by SelectAndOmitColumns is private to the caller), the immutability
+//@ # of parsed Field attributes and of Statement.SkipHooks (K3 sweeps), and typed memory.
 //@ site tracked-time-only-with-hooks
 //@   match calldyn Config.NowFunc
 //@   in callbacks.ConvertToAssignments
 //@   min-sites 5
-//@   assert hook-running-update: !stmt.SkipHooks [C10-undischarged]
+//@   assert hook-running-update: !stmt.SkipHooks [C10]
 //@ site update-respects-select
 //@   match calldyn local:assignValue
 //@   in callbacks.ConvertToAssignments
 //@   min-sites 4
 //@   let tracked = !restricted || (!stmt.SkipHooks && field.AutoUpdateTime > 0)
-//@   assert unselected-only-if-unrestricted-or-tracked-time: selectColumns[field.DBName] || (!has(selectColumns, field.DBName) && tracked) || (field.DBName == "" && (selectColumns[field.Name] || (!has(selectColumns, field.Name) && tracked))) [C10-undischarged]
+//@   assert unselected-only-if-unrestricted-or-tracked-time: selectColumns[field.DBName] || (!has(selectColumns, field.DBName) && tracked) || (field.DBName == "" && (selectColumns[field.Name] || (!has(selectColumns, field.Name) && tracked))) [C10]
 //@ immutable Statement.SkipHooks
 //@   writers gorm.(*DB).Session gorm.(*DB).getInstance gorm.(*Statement).clone gorm.(*DB).UpdateColumn gorm.(*DB).UpdateColumns gorm.(*DB).*
 //@   tags C10 C13
@@ -186,3 +186,12 @@ package callbacks
 //@   in callbacks.ConvertToCreateValues
 //@   min-sites 9
 //@   assert cell-is-current-reading-or-declared-default: (recordWritten == 0 && tagof(arg0) == lastReadTag && boxof(arg0) == lastReadBox) || (field.DefaultValueInterface != nil && arg0 == field.DefaultValueInterface) [C03]
+
+//@ # ---------- C10: Create from a map writes only columns that Select/Omit and the field permissions admit ----------
+//@ # SelectAndOmitColumns (under contract in package gorm) maps every create-denied field's column to false; the
+//@ # name stored in the VALUES column list must be the very key that was looked up in that map and admitted.
+//@ site create-map-column-admitted
+//@   match store Column.Name
+//@   in callbacks.ConvertMapToValuesForCreate
+//@   min-sites 1
+//@   assert stored-name-was-admitted: (has(selectColumns, arg0) && selectColumns[arg0]) || (!has(selectColumns, arg0) && !restricted) [C10]
